@@ -519,4 +519,6 @@ def run(ctx, progs):
         c18.r5_by_value(ctx, P, R="C10.R6")
         from . import c05
         c05.r3_reset(ctx, P, R="C10.R7")
+        from . import c12 as _c12
+        _c12.r3_growth(ctx, P, R="C10.R8")
     ctx.config = None
